@@ -28,8 +28,17 @@ fn panic_text(e: Box<dyn std::any::Any + Send>) -> String {
     }
 }
 
-fn set_sq(board: &mut BoardState, pos: &mut Pos, sq: u8, p: u8) {
+/// Put a piece on (or clear) a square of a board under enumeration; the hash key is kept consistent with the
+/// placement, as it is on every board the engine itself builds (a lookup keyed by it must stay sound here).
+fn set_sq(board: &mut BoardState, pos: &mut Pos, sq: u8, p: u8, h: &ZobristHasher) {
     let pt = point_of_sq(sq);
+    let old = pos.b[sq as usize];
+    if old != rules::EMPTY {
+        board.zobrist_key ^= h.get_val_for_piece(engine_piece(old), pt);
+    }
+    if p != rules::EMPTY {
+        board.zobrist_key ^= h.get_val_for_piece(engine_piece(p), pt);
+    }
     pos.b[sq as usize] = p;
     board.board[pt.0][pt.1] = if p == rules::EMPTY { Square::Empty } else { Square::Full(engine_piece(p)) };
 }
@@ -112,7 +121,7 @@ pub fn run_c06(rep: &Report) -> i32 {
                                     continue;
                                 }
                                 let edge1 = rules::kind_of(x) == rules::P && (rules::rank_of(s1) == 0 || rules::rank_of(s1) == 7);
-                                set_sq(&mut board, &mut pos, s1, x);
+                                set_sq(&mut board, &mut pos, s1, x, &h);
                                 judge(&board, &pos, !edge1);
                                 if extra >= 2 {
                                     for &y in &pieces[i..] {
@@ -122,15 +131,15 @@ pub fn run_c06(rep: &Report) -> i32 {
                                                 continue;
                                             }
                                             let edge2 = rules::kind_of(y) == rules::P && (rules::rank_of(s2) == 0 || rules::rank_of(s2) == 7);
-                                            set_sq(&mut board, &mut pos, s2, y);
+                                            set_sq(&mut board, &mut pos, s2, y, &h);
                                             // a blocker case: the two pieces and a king are aligned
                                             judge(&board, &pos, !edge1 && !edge2);
                                             local_blocked += 1;
-                                            set_sq(&mut board, &mut pos, s2, rules::EMPTY);
+                                            set_sq(&mut board, &mut pos, s2, rules::EMPTY, &h);
                                         }
                                     }
                                 }
-                                set_sq(&mut board, &mut pos, s1, rules::EMPTY);
+                                set_sq(&mut board, &mut pos, s1, rules::EMPTY, &h);
                             }
                         }
                     }
@@ -382,6 +391,44 @@ pub fn run_c14(rep: &Report) -> i32 {
         }
     });
 
+    // (1b) the same two identities on full boards: a term that looks at several squares at once (a whole rank,
+    // a pawn structure, a piece pair) is invisible to placements of <= 3 pieces. Every root of the reach graph,
+    // every perft-suite and search root, and the start position with every set of <= 2 men (not kings) removed
+    // (both home ranks intact on one side while material is missing: every phase weight between the tables).
+    let mut full_boards: Vec<Pos> = Vec::new();
+    for (f, _, _) in crate::e1_posgraph::S1_ROOTS {
+        full_boards.push(Pos::from_fen(f).unwrap());
+    }
+    for (f, _) in rules::PERFT_SUITE {
+        full_boards.push(Pos::from_fen(f).unwrap());
+    }
+    for f in crate::e2_clockpoints::C07_ROOTS {
+        if let Some(p) = crate::e4_session::pos_of_command(f) {
+            full_boards.push(p);
+        }
+    }
+    {
+        let start = Pos::from_fen("rnbqkbnr/pppppppp/8/8/8/8/PPPPPPPP/RNBQKBNR w KQkq - 0 1").unwrap();
+        let men: Vec<u8> = (0..64u8).filter(|&s| start.b[s as usize] != rules::EMPTY && rules::kind_of(start.b[s as usize]) != rules::K).collect();
+        for (i, &a) in men.iter().enumerate() {
+            let mut p = start;
+            p.b[a as usize] = rules::EMPTY;
+            full_boards.push(p);
+            for &b in &men[i + 1..] {
+                let mut q = p;
+                q.b[b as usize] = rules::EMPTY;
+                full_boards.push(q);
+            }
+        }
+    }
+    let n_full = full_boards.len() as u64;
+    for p in &mut full_boards {
+        p.rights = 0;
+        p.ep = None;
+        check_placement(p);
+    }
+    rep.add("full_board_positions_with_mirror_and_negation_identity", n_full);
+
     // (2) material vectors on extremal squares: bound of |eval|
     // singleton values measured through the real evaluation (white piece alone; mg value = eval with phase
     // forced high is not observable directly, so extremal squares are chosen from the alone-on-board value
@@ -535,12 +582,12 @@ pub fn run_c14(rep: &Report) -> i32 {
                                 b.order_heuristic = 9_999_999;
                             }
                             2 => {
+                                // the board the search builds for a null move: side flipped, key left as it was
                                 b.pawn_promotion = Some(Piece { color: PieceColor::Black, kind: PieceKind::Queen });
-                                b.zobrist_key = 0;
+                                b.zobrist_key ^= h.get_black_to_move_val();
                             }
                             3 => {
-                                b.white_king_location = Point(2, 2);
-                                b.black_king_location = Point(9, 9);
+                                b.last_move = Some((Point(2, 2), Point(9, 9)));
                                 b.order_heuristic = -999_999_999;
                             }
                             _ => {}
